@@ -1,6 +1,7 @@
 import AgModel.Proofs.PoolS2N
 import AgModel.Proofs.PoolS2NComplete
 import AgModel.Proofs.PoolS2NGlue
+import AgModel.Proofs.PoolS2NGlueEvents
 /-!
 # C06 — Safe-to-notar / safe-to-skip are signalled exactly when the protocol allows
 
@@ -258,6 +259,31 @@ theorem pool_s2n_complete (e : Epoch) (hpos : 0 < e.total) (pre post : List Pool
   rcases hc b.2 with x | x
   · exact x
   · exact absurd ⟨hst, by rw [hl, hh hheld], hown⟩ x.1
+
+/-- **The pool forwards the signal.** Whatever is recorded in the `sent` set of a slot state of a reachable pool was emitted
+    as a `SafeToNotar` event for that slot among the events of the run (from `add_vote`, from `notify_waiting_children`
+    inside `add_valid_cert`, or from `add_block`). -/
+theorem pool_s2n_emitted (e : Epoch) (ops : List PoolOp) (s h : Nat) (st : SlotState) :
+    (poolRun { epoch := e } ops).1.getSlot s = some st → h ∈ st.sent → Event.s2n s h ∈ (poolRun { epoch := e } ops).2 := by
+  intro hg hh
+  have := (poolRun_emit e (fun ev => ev ∈ (poolRun { epoch := e } ops).2) ops { epoch := e } ⟨rfl, SlotsSat.init e _⟩
+    (fun _ hev => hev)).2 s st hg h hh
+  rw [getSlot_slot hg] at this
+  exact this
+
+/-- **Pool-level timeliness, on the events.** `pool_s2n_complete` with `pool_s2n_emitted`: for a retained accepted
+    registration `b → par`, once the parent's certificate is held and the stake and own-vote conditions hold in the slot
+    state, the event `SafeToNotar(b)` is among the events the pool has emitted — for every run, hence by the end of the
+    operation that completed the condition. -/
+theorem pool_s2n_timely (e : Epoch) (hpos : 0 < e.total) (pre post : List PoolOp) (b par : Nat × Nat) :
+    let q := (poolRun { epoch := e } pre).1
+    let r := poolRun { epoch := e } (pre ++ .block b par :: post)
+    b.1 > par.1 → (∃ t ev, Finality.addParent q.fin b par = .ok t ev) → r.1.fin.first ≤ b.1 →
+    ∃ st, r.1.getSlot b.1 = some st ∧
+      (Held r.1 par → stakeClause e st b.2 = true → ownVotedNot e st b.2 = true → Event.s2n b.1 b.2 ∈ r.2) := by
+  intro q r hgt hacc hret
+  obtain ⟨st, hg, hc⟩ := pool_s2n_complete e hpos pre post b par hgt hacc hret
+  exact ⟨st, hg, fun h1 h2 h3 => pool_s2n_emitted e _ b.1 b.2 st hg (hc h1 h2 h3)⟩
 
 /-- **Pool-level soundness.** Conversely, in every reachable pool a recorded safe-to-notar signal for `(s, h)` is
     justified: the stake clause and the own-vote condition hold in the slot state, the block was registered (accepted)
